@@ -46,11 +46,6 @@ theorem tie_export_error (A : Obj) : exportErrors A.euid.isSome = true ↔ A.eui
   unfold exportErrors
   cases h : A.euid <;> simp
 
-/-- f_export_uid: result 0 exactly for a target that has an euid (doExport) -/
-theorem tie_export_target (T : Obj) : exportRefusesTarget T.euid.isSome = true ↔ T.euid ≠ none := by
-  unfold exportRefusesTarget
-  cases h : T.euid <;> simp
-
 /-- the svalue the master returned, as the refusal condition sees it -/
 def ansIsNumber : Ans → Bool
   | .int _ => true
@@ -121,7 +116,7 @@ def governed (w : UidWrite) : Bool :=
   | some .seteuidZero => decide (w.applies = []) && w.path.contains "unless sp->u.number" && w.path.contains s!"if (sp->type & {tNumber})"
   | some .seteuidApproved =>
     w.applies.contains "valid_seteuid" && w.path.contains s!"unless (sp->type & {tNumber})" && w.path.contains refusalGuard
-  | some .exportUid => w.path.contains "unless (current_object->euid == 0)" && w.path.contains "else ob->euid"
+  | some .exportUid => w.path.contains "unless (current_object->euid == 0)"     -- (the target test: `tie_export_write_dominated`)
   | some .reloadReset => true
   | some .preMaster => decide (w.applies = []) && w.path.contains s!"if (get_machine_state() < {msMudlibLimbo})"
   | some .creatorSame =>
